@@ -57,10 +57,36 @@ def isbits(x):
     return isinstance(x, list) and all(isinstance(b, (bool, int)) and b in (0, 1) for b in x)
 
 
+class _CallTimeout(Exception):
+    pass
+
+
+class TooManyHangs(Exception):
+    pass
+
+
+_HANGS = {"n": 0}
+
+
+def _on_alarm(signum, frame):
+    raise _CallTimeout()
+
+
 def call(f, *a):
-    """run the real code; an exception is the outcome None (the model's None)"""
+    """run the real code; an exception is the outcome None (the model's None).
+    int2bin loops forever on a negative argument (e.g. when a changed Integer moves its lower bound above a requested value):
+    every call runs under a watchdog (5 s for the first hang, 1 s afterwards); after 8 hangs the run is abandoned
+    (the violations recorded so far are reported)."""
+    # CPU-time watchdog (wall-clock backstop 30x): wall-clock limits raise false alarms on a loaded machine
     try:
-        return f(*a), None
+        with C.cpu_time_limit(5.0 if _HANGS["n"] == 0 else 1.0, exc=_CallTimeout):
+            r = f(*a)
+        return r, None
+    except _CallTimeout:
+        _HANGS["n"] += 1
+        if _HANGS["n"] >= 8:
+            raise TooManyHangs("%d calls of the code under test did not return within the watchdog time; last: %s%r" % (_HANGS["n"], getattr(f, "__name__", f), a))
+        return None, "no result within the watchdog time (does not terminate?)"
     except Exception as e:  # noqa: BLE001
         return None, type(e).__name__
 
